@@ -127,6 +127,8 @@ pub struct Hist<A, B, C> {
     pub triples: bool,
     /// C20: perform unrelated allocations before building the world.
     pub perturb: bool,
+    /// pre-rendered replay JSON up to the operation list (crash guard)
+    pub note_prefix: String,
     pub _p: PhantomData<(A, B, C)>,
 }
 
@@ -1407,6 +1409,7 @@ impl<A: Tok, B: Tok, C: Tok> McSystem for Hist<A, B, C>
     type Op = Op;
 
     fn run(&self, ops: &[Op], full: bool) -> Outcome<Op> {
+        crate::util::crash_note(&format!("{}{}}}", self.note_prefix, serde_json::to_string(ops).unwrap_or_default()));
         match catch(|| self.run_inner(ops, full)) {
             Ok(o) => o,
             Err(msg) => Outcome {
@@ -1438,6 +1441,7 @@ use serde_json::json;
 
 pub struct Config {
     pub name: &'static str,
+    pub kinds_name: &'static str,
     pub alphabet: Alphabet,
     pub n_create: usize,
     pub reg: [RegPath; 3],
@@ -1456,6 +1460,7 @@ fn mk<A: Tok, B: Tok, C: Tok>(c: &Config, prop: Prop, perturb: bool) -> Hist<A, 
         reg: c.reg,
         triples: c.triples,
         perturb,
+        note_prefix: format!("{{\"engine\":\"mc-hist\",\"property\":\"{:?}\",\"oracle\":\"process crash inside a specs operation\",\"config\":{},\"ops\":", prop, cfg_json(c.kinds_name, c)),
         _p: PhantomData,
     }
 }
@@ -1522,12 +1527,22 @@ fn parse_prop(s: &str) -> Prop {
 
 /// (kinds index, config) pairs explored for a property and tier.
 pub fn plan(prop: Prop, thorough: bool) -> Vec<(usize, Config)> {
+    let names: Vec<&'static str> = all_kinds().iter().map(|k| k.name).collect();
+    let mut out = plan_inner(prop, thorough);
+    for (i, c) in out.iter_mut() {
+        c.kinds_name = names[*i];
+    }
+    out
+}
+
+fn plan_inner(prop: Prop, thorough: bool) -> Vec<(usize, Config)> {
     use RegPath::*;
     let reg0 = [Register, Register, Register];
     match prop {
         Prop::C01 | Prop::C02 | Prop::C17 => vec![(
             0,
             Config {
+                kinds_name: "",
                 name: "E1",
                 alphabet: Alphabet::E1,
                 n_create: if thorough { 6 } else { 5 },
@@ -1543,6 +1558,7 @@ pub fn plan(prop: Prop, thorough: bool) -> Vec<(usize, Config)> {
                     (
                         i,
                         Config {
+                            kinds_name: "",
                             name: "E2",
                             alphabet: Alphabet::E2,
                             n_create: n,
@@ -1569,6 +1585,7 @@ pub fn plan(prop: Prop, thorough: bool) -> Vec<(usize, Config)> {
                     (
                         i,
                         Config {
+                            kinds_name: "",
                             name: "E2",
                             alphabet: Alphabet::E2,
                             n_create: n,
@@ -1587,6 +1604,7 @@ pub fn plan(prop: Prop, thorough: bool) -> Vec<(usize, Config)> {
                     (
                         i,
                         Config {
+                            kinds_name: "",
                             name: "E3",
                             alphabet: Alphabet::E3,
                             n_create: if thorough { 3 } else { 3 },
@@ -1638,6 +1656,7 @@ fn cfg_from_json(v: &serde_json::Value) -> (usize, Config) {
     (
         ki,
         Config {
+            kinds_name: kinds[ki].name,
             name: "replay",
             alphabet,
             n_create: v["n_create"].as_u64().unwrap_or(6) as usize,
@@ -1654,6 +1673,7 @@ pub fn main() {
     if let Some(path) = &cli.replay {
         replay(&cli, path);
     }
+    crate::util::crash_guard(&cli.root, &cli.property);
     let prop = parse_prop(&cli.property);
     let kinds = all_kinds();
     let plan = plan(prop, cli.thorough());
@@ -1753,6 +1773,7 @@ fn replay(cli: &Cli, path: &std::path::Path) -> ! {
     let txt = std::fs::read_to_string(path).unwrap_or_else(|e| machinery_error(&format!("cannot read replay: {e}")));
     let v: serde_json::Value = serde_json::from_str(&txt).unwrap_or_else(|e| machinery_error(&format!("bad replay: {e}")));
     let prop = parse_prop(v["property"].as_str().unwrap_or(&cli.property));
+    crate::util::crash_guard_tagged(&cli.root, &format!("{:?}", prop), "replay-crash");
     let (ki, cfg) = cfg_from_json(&v["config"]);
     let ops: Vec<Op> = serde_json::from_value(v["ops"].clone()).unwrap_or_else(|e| machinery_error(&format!("bad ops: {e}")));
     let kinds = all_kinds();
